@@ -451,3 +451,53 @@ def run(ck):
     whole6 = bool(lp6) and n6.nodes[lp6[0]]['k'] == 'CXXForRangeStmt'
     ck.ob('C34.v6', 'C34.v6/case-folded', bool(low) and whole6, n6.loc(),
           'normalize_ipv6 lower-cases every character of the literal before it is matched against the (lower-case) reserved prefixes — "FD12:…" is fd12:…')
+
+    # ---- the conflict verdict counts every candidate (warn mode withholds on it): in both builders the loop over result.candidates
+    # files every candidate under its endpoint, unconditionally, and result.conflict is set exactly when more than one endpoint was filed ----
+    for outer in (NET + 'discover_control_advertise_candidates', NET + 'build_transport_advertise_candidates'):
+        cf = P.fn(outer)
+        short = outer.split('::')[-1]
+        cl = []
+        for l in __import__('sa.paths', fromlist=['loops']).loops(cf):
+            nd = cf.nodes[l]
+            if nd['k'] != 'CXXForRangeStmt' or not any((cf.nodes[j].get('m') or '').endswith('AdvertiseDiscoveryResult::candidates') for j in cf.walk(nd['range'])):
+                continue
+            filed = [i for i in cf.walk(nd['body']) if (cf.nodes[i].get('callee') or '').endswith('::push_back') and
+                     any((cf.nodes[j].get('callee') or '').endswith('::operator[]') for j in cf.walk(cf.kids(i)[0]))]
+            if filed:
+                cl.append((l, filed))
+        ck.floor('C34.conf', 'endpoint-filing loop over result.candidates in ' + short, len(cl), 1)
+        l, filed = cl[0]
+        maps = {cf.nodes[cf.strip(cf.kids(j)[1])].get('d') for i in filed for j in cf.walk(cf.kids(i)[0])
+                if (cf.nodes[j].get('callee') or '').endswith('::operator[]')} - {None}
+        ck.floor('C34.conf', 'endpoint map filled in ' + short, len(maps), 1)
+        skips = [i for i in cf.walk(cf.nodes[l]['body']) if cf.nodes[i]['k'] in ('ContinueStmt', 'BreakStmt', 'ReturnStmt', 'GotoStmt', 'CXXThrowExpr')]
+        cond_anc = [a for a in cf.ancestors(filed[0]) if cf.is_in(a, cf.nodes[l]['body']) and
+                    cf.nodes[a]['k'] in ('IfStmt', 'ConditionalOperator', 'SwitchStmt', 'ForStmt', 'WhileStmt', 'DoStmt', 'CXXForRangeStmt', 'CXXTryStmt')
+                    or (cf.is_in(a, cf.nodes[l]['body']) and cf.nodes[a]['k'] == 'BinaryOperator' and cf.nodes[a].get('op') in ('&&', '||'))]
+        okc = not skips and not cond_anc
+        ck.ob('C34.conf', 'C34.conf/%s/every-candidate-counted' % short, okc,
+              cf.loc((skips or cond_anc)[0]) if not okc else cf.loc(l),
+              'the loop that files candidates by endpoint for the conflict verdict files every element of result.candidates: no continue/break/return '
+              'in its body and the filing statement is unconditional (a candidate left out of the count hides a conflict, and warn mode then publishes both)')
+        sets = [i for i in cf.walk() if cf.nodes[i]['k'] == 'BinaryOperator' and cf.nodes[i].get('op') == '=' and
+                (cf.nodes[cf.strip(cf.kids(i)[0])].get('m') or '').endswith('AdvertiseDiscoveryResult::conflict')]
+        ck.floor('C34.conf', 'assignments to result.conflict in ' + short, len(sets), 1)
+        okw = True
+        bad = None
+        for s_ in sets:
+            if const_value(cf, cf.kids(s_)[1]) != 1:
+                okw, bad = False, s_
+                continue
+            ifs = [a for a in cf.ancestors(s_) if cf.nodes[a]['k'] == 'IfStmt']
+            g_ok = False
+            if len(ifs) == 1 and cf.is_in(s_, cf.nodes[ifs[0]].get('then', -1)):
+                c_ = cf.nodes[cf.strip(cf.nodes[ifs[0]]['cond'])]
+                if c_['k'] == 'BinaryOperator' and c_.get('op') == '>':
+                    a_, b_ = [cf.strip(x) for x in cf.kids(cf.strip(cf.nodes[ifs[0]]['cond']))]
+                    g_ok = (cf.nodes[a_].get('callee') or '').endswith('::size') and const_value(cf, b_) == 1 and \
+                        any(cf.nodes[j].get('d') in maps for j in cf.walk(a_) if cf.nodes[j]['k'] == 'DeclRefExpr')
+            if not g_ok:
+                okw, bad = False, s_
+        ck.ob('C34.conf', 'C34.conf/%s/conflict-iff-several-endpoints' % short, okw, cf.loc(bad) if bad is not None else cf.loc(sets[0]),
+              'result.conflict is assigned only `true`, under the single test "the endpoint map filled from all candidates holds more than one entry"')
